@@ -922,6 +922,7 @@ fn c17_run(case: &Value, stats: &mut Stats) -> RunResult<()> {
             v.flush().map_err(|e| Fail::Harness(format!("flush: {e}")))?;
             let names = v.region_names();
             let rec_dir = v.changes_dir(&db);
+            let model_before: Vec<u64> = v.contents().map(|c| c.into_iter().flatten().collect()).unwrap_or_default();
             if what == "record" {
                 // random damage to the change record, then rollback
                 let path = rec_dir.join("2");
@@ -941,6 +942,73 @@ fn c17_run(case: &Value, stats: &mut Stats) -> RunResult<()> {
                 return Ok(());
             }
             v.close();
+            if what == "page_fields" {
+                // field-targeted damage of the last page-index entry (a raw page): value count and byte
+                // length no longer fit each other. The value decoder must refuse the page: whatever the
+                // stored-range scans still yield is a prefix of what was stored, and nothing is decoded
+                // from beyond the page's recorded bytes.
+                let pages_name = names.iter().find(|n| n.ends_with("_pages")).cloned().ok_or_else(|| Fail::Harness("no page index".into()))?;
+                let region = db.get_region(&pages_name).ok_or_else(|| Fail::Harness("page index region missing".into()))?;
+                let all = region.create_reader().read_all().to_vec();
+                if all.len() < 16 {
+                    return Ok(());
+                }
+                let at = all.len() - 16;
+                let bytes = u32::from_le_bytes(all[at + 8..at + 12].try_into().unwrap());
+                let vfield = u32::from_le_bytes(all[at + 12..at + 16].try_into().unwrap());
+                let (flag, nvals) = (vfield & 0x8000_0000, vfield & 0x7fff_ffff);
+                if flag == 0 || bytes != nvals * 8 {
+                    stats.bump("probe.last_page_not_raw");
+                    return Ok(());
+                }
+                let (nb, nv, label) = match rng.below(5) {
+                    0 => (bytes, nvals * 2, "value count doubled"),
+                    1 => (bytes / 2, nvals, "byte length halved"),
+                    2 => (bytes, nvals + 1, "value count + 1"),
+                    3 => (bytes - 1, nvals, "byte length - 1"),
+                    _ => (bytes.saturating_sub(8), nvals, "byte length - 8"),
+                };
+                let mut ent = all[at..].to_vec();
+                ent[8..12].copy_from_slice(&nb.to_le_bytes());
+                ent[12..16].copy_from_slice(&(nv | flag).to_le_bytes());
+                region.write_at(&ent, at).map_err(|e| Fail::Harness(format!("write_at: {e}")))?;
+                drop(region);
+                stats.bump("fault.vec_page_entry_fields_damaged");
+                let orig = model_before.clone();
+                let full_before = orig.len() - nvals as usize;
+                let mut w = make::<u64>(&fmt, "x");
+                match catch(|| w.open(&db, 0, 1, 4)) {
+                    Err(p) => return Err(viol("decode-panicked", format!("[{fmt}] last page entry with {label}: import panicked: {p}"))),
+                    Ok(Err(_)) => {
+                        stats.bump("probe.import_refused_damaged_page_entry");
+                    }
+                    Ok(Ok(())) => {
+                        let claimed = w.stored_len();
+                        match catch(|| w.stored_scans(0, claimed)) {
+                            Err(p) => return Err(viol("decode-panicked", format!("[{fmt}] last page entry with {label}: stored-range scan panicked: {p}"))),
+                            Ok(None) => {}
+                            Ok(Some((a, b))) => {
+                                for (src, got) in [("mmap", &a), ("io", &b)] {
+                                    let from_page = got.len().saturating_sub(full_before);
+                                    if from_page * 8 > nb as usize {
+                                        return Err(viol(
+                                            "page-decoded-beyond-its-bytes",
+                                            format!("[{fmt}] last page entry with {label} ({nb} bytes, {nv} values): the {src} scan produced {from_page} values from that page"),
+                                        ));
+                                    }
+                                    if got.len() > orig.len() || got[..] != orig[..got.len()] {
+                                        return Err(viol("damaged-page-decoded-to-foreign-values", format!("[{fmt}] last page entry with {label}: the {src} scan yields values that were never stored")));
+                                    }
+                                }
+                                stats.bump("probe.scan_over_damaged_page_entry");
+                            }
+                        }
+                    }
+                }
+                w.close();
+                HUB.reset();
+                return Ok(());
+            }
             let target = match what.as_str() {
                 "header" => names[0].clone(),
                 "pages" => names.iter().find(|n| n.ends_with("_pages")).cloned().unwrap_or_else(|| names[0].clone()),
@@ -1022,9 +1090,9 @@ impl Check for C17Check {
     }
     fn generate(&self, seed: u64, run: u64, _tier: Tier) -> Value {
         let rs = run_seed(seed, "C17", run);
-        let what = ["slot", "slot", "slot", "header", "pages", "holes", "record"][(run % 7) as usize];
+        let what = ["slot", "slot", "slot", "header", "pages", "holes", "record", "page_fields"][(run % 8) as usize];
         let fmt = match what {
-            "pages" => ["pco", "lz4", "zstd"][(rs % 3) as usize],
+            "pages" | "page_fields" => ["pco", "lz4", "zstd"][(rs % 3) as usize],
             "holes" => RAW_FORMATS[(rs % 2) as usize],
             _ => ALL_FORMATS[(rs % 5) as usize],
         };
@@ -1041,7 +1109,7 @@ impl Check for C17Check {
         r
     }
     fn rule(&self) -> String {
-        "stored bytes are damaged between a clean close and the next open/import/rollback (the 'flipped stored byte' fault), never by calling private decoders: (slot) a database with 2-5 regions is closed, one 4 KiB metadata slot gets a bit flip / random bytes / a field-targeted value (0, 1, page multiples +-1, 2^32, 2^63, u64::MAX, name length 1024/1025/4064) / a non-UTF-8 name / truncation / full garbage; RegionMetadata::from_bytes (public) must return an error or a value obeying the validity rules, without panic and without an allocation beyond the input; then Database::open must succeed and every UNDAMAGED slot must still yield its region, intact (a mutated slot that decodes as valid but collides with another extent or name is not judged); (header/pages/holes) a vector's header, page-index or holes region is truncated, bit-flipped or overwritten with garbage through rawdb, then plain and forced import must not panic and not over-allocate; (record) a change record gets the same treatment, rollback must not panic. Fault-free half: every slot decodes to the stored name/length. Every run is one fault; distinct = distinct (kind, seed) cases".into()
+        "stored bytes are damaged between a clean close and the next open/import/rollback (the 'flipped stored byte' fault), never by calling private decoders: (slot) a database with 2-5 regions is closed, one 4 KiB metadata slot gets a bit flip / random bytes / a field-targeted value (0, 1, page multiples +-1, 2^32, 2^63, u64::MAX, name length 1024/1025/4064) / a non-UTF-8 name / truncation / full garbage; RegionMetadata::from_bytes (public) must return an error or a value obeying the validity rules, without panic and without an allocation beyond the input; then Database::open must succeed and every UNDAMAGED slot must still yield its region, intact (a mutated slot that decodes as valid but collides with another extent or name is not judged); (header/pages/holes) a vector's header, page-index or holes region is truncated, bit-flipped or overwritten with garbage through rawdb, then plain and forced import must not panic and not over-allocate; (page_fields) the last page-index entry of a compressed vector (a raw page) gets a value count / byte length that no longer fit each other (count x2, count+1, bytes/2, bytes-1, bytes-8): import must not panic, and the stored-range scans (mmap and file-I/O source) may only yield a prefix of what was stored, with no value decoded from beyond the page's recorded bytes; (record) a change record gets the same treatment, rollback must not panic. Fault-free half: every slot decodes to the stored name/length. Every run is one fault; distinct = distinct (kind, seed) cases".into()
     }
     fn assumptions(&self) -> Vec<String> {
         vec![
@@ -1051,6 +1119,6 @@ impl Check for C17Check {
         ]
     }
     fn required_probes(&self) -> Vec<&'static str> {
-        vec!["probe.open_with_damaged_slot", "probe.invalid_slot", "probe.crafted_valid_slot", "probe.import_over_damaged_region", "fault.record_random_damage", "fault.vec_header_damaged", "fault.vec_pages_damaged", "fault.vec_holes_damaged"]
+        vec!["probe.open_with_damaged_slot", "probe.invalid_slot", "probe.crafted_valid_slot", "probe.import_over_damaged_region", "fault.record_random_damage", "fault.vec_header_damaged", "fault.vec_pages_damaged", "fault.vec_holes_damaged", "probe.scan_over_damaged_page_entry"]
     }
 }
